@@ -167,6 +167,10 @@ def raise_exc(kind, args):
         raise KeyboardInterrupt()
     if kind == 'SystemExit':
         raise SystemExit(3)
+    import builtins
+    cls = getattr(builtins, kind, None)
+    if isinstance(cls, type) and issubclass(cls, BaseException):
+        raise cls(*args)
     raise RuntimeError('unknown kind')
 
 
@@ -205,6 +209,14 @@ def echo2(a, b, escape=None):
     elif a == 'SWALLOW':
         return swallow_everything(escape)
     return ('r', a, b)
+
+
+def linger(started=None, seconds=40):
+    """returns at once but leaves a non-daemon thread behind: the result is delivered, the child process stays alive"""
+    threading.Thread(target=time.sleep, args=(seconds,)).start()
+    if started:
+        open(started, 'w').close()
+    return 'lingering'
 
 
 def hold_until(path, value=None):
